@@ -161,7 +161,9 @@ func init() {
 	// ------------------------------------------------------------------ C20.R2
 	register("C20", "R2", "K5", "the results hash the client recomputes is built exactly like the one the state machine stores in the header", 2, func(c *Ctx) {
 		w := c.W
-		norm := func(s string) string { return regexp.MustCompile(`^types\.NewResults\(.*\)\.Hash\(\)$`).ReplaceAllString(s, "types.NewResults(X).Hash()") }
+		norm := func(s string) string {
+			return regexp.MustCompile(`^types\.NewResults\(.*\)\.Hash\(\)$`).ReplaceAllString(s, "types.NewResults(X).Hash()")
+		}
 		var stateCtor, clientCtor string
 		if f := c.fn("state", "ABCIResponsesResultsHash"); f != nil {
 			if rv := returnValues(f, 0); len(rv) == 1 {
